@@ -6,7 +6,7 @@ import json, os, re, shutil, subprocess, sys
 from concurrent.futures import ThreadPoolExecutor
 HERE = os.path.dirname(os.path.dirname(os.path.abspath(__file__)))
 M, k, prop, summary, needs = sys.argv[1:6]
-wt = "/tmp/seed3/%s" % M
+wt = "%s/%s" % (os.environ.get("SEED3_ROOT", "/tmp/seed3"), M)
 diff, demo = os.path.join(wt, "m%s.diff" % k), os.path.join(wt, "demo_m%s.py" % k)
 def sh(cmd, **kw):
     return subprocess.run(cmd, shell=True, capture_output=True, text=True, **kw)
@@ -37,11 +37,11 @@ for r in results:
 ok = "867 passed" in t and d1.returncode == 1 and d0.returncode == 0
 if not ok:
     sys.exit("NOT CONFIRMED")
-dst = os.path.join(HERE, "seeded", "R3-%s-m%s" % (M, k))
+dst = os.path.join(HERE, "seeded", "%s-%s-m%s" % (os.environ.get("SEED3_TAG", "R3"), M, k))
 os.makedirs(dst, exist_ok=True)
 shutil.copy(diff, os.path.join(dst, "patch.diff")); shutil.copy(demo, os.path.join(dst, "demo.py"))
 base = sh("git -C %s rev-parse --short HEAD" % wt).stdout.strip()
-meta = {"property": prop, "summary": summary, "needs": needs, "base_commit": base, "round": 3,
+meta = {"property": prop, "summary": summary, "needs": needs, "base_commit": base, "round": 3 if os.environ.get("SEED3_TAG", "R3") == "R3" else 5,
         "verified": {"repo_tests_with_change": t, "demo_exit_with_change": d1.returncode, "demo_exit_without_change": d0.returncode,
                      "demo_output_with_change": (d1.stdout + d1.stderr).strip()[:600],
                      "how": "git apply in a scratch worktree of /repo HEAD; pytest; demo.py; VERIF_REPO_DIR=<worktree> ./check <ID> quick for all 18 checks"},
